@@ -150,8 +150,7 @@ theorem c16_routing_tied : RoutingTied := by
 example : (SJ.Gen.routeOwned.lookup "deserialize_char") = some "->deserialize_string" := by rfl
 example : (SJ.Gen.routeRef.lookup "deserialize_char") = some "->deserialize_str" := by rfl
 
-/-- **C16, the text leg (`_partial`: everything of the claim but a float under a 128-bit integer target, and
-    `arbitrary_precision`).** For every schema of the fragment `agreeFrag2` — bool, the twelve integer targets (8–128 bit),
+/-- **C16, the text leg (`_partial`: everything of the claim but `arbitrary_precision`).** For every schema of the fragment `agreeFrag2` — bool, the twelve integer targets (8–128 bit),
     `f64`, char, `String`, byte buffers, unit / unit structs, `Option`, newtype structs, `Vec`, fixed-length tuples, maps with
     EVERY key kind (string, the twelve integer widths, bool, char, unit-variant enums; arbitrary key strings, accepted or not),
     structs (with and without `deny_unknown_fields`; from arrays and from objects, unknown / duplicate / missing fields as
@@ -167,16 +166,20 @@ example : (SJ.Gen.routeRef.lookup "deserialize_char") = some "->deserialize_str"
     returns, and fails whenever it fails — matching and mismatching values alike (an integer into `f64`: `as f64` on both
     sides; a float into an integer, bool, string, container … target: refused on both sides). Together with
     `c16_owned_borrowed` this is the three-way statement.
-    Missing (named): a float value in a schema that has a 128-bit integer target (`h128`: `scan_integer128` takes the integer
-    prefix of `1.5` and leaves the rejection to the caller — trailing characters / expected `,` or `]` —, so the
-    per-target invariant `Agree1` of the proof fails there although all three paths reject: the harness finds
-    `ERR|ERR|ERR` on every such case), and `arbitrary_precision` (literal-backed numbers). The text is the one the serializer
-    model writes (`c03_value`). -/
+    A float value in a schema with a 128-bit integer target is covered (`h128`): `scan_integer128` takes the integer prefix
+    of `1.5` and leaves the rejection to the caller (`has_next_element` / `has_next_key` / `end_seq` / the `}` test of an
+    enum / `end()`: expected `,` or `]`, trailing characters), which the proof follows through every container
+    (`Proofs.Typed.Agree1w`, `int128_float_weak`) — under the proviso that the printer writes such a float with a fraction or
+    an exponent (`floatsPointed ext v`; true of `ryu`, part of `RyuShortest`, vacuous without floats or without 128-bit
+    targets). The proviso is needed: a printer writing `1e20` as `100000000000000000000` would make `from_str::<i128>`
+    accept what `from_value::<i128>` refuses.
+    Missing (named): `arbitrary_precision` (literal-backed numbers). The text is the one the serializer model writes
+    (`c03_value`). -/
 theorem c16_text_agrees_partial (mcfg : Model.Machine.Cfg) (hap : mcfg.ap = false) (src : Model.Machine.Src)
     (ext : Spec.Program.Ext) (hext : Spec.Program.ExtOK ext) (ext' : Ext) (s : Schema) (hs : Proofs.Typed.agreeFrag2 s = true)
     (v : JV) (hv : Spec.WF.shapeOK (Proofs.CanonM.specCfg mcfg) v = true)
     (hF : Spec.WF.floatsRT (Proofs.CanonM.specCfg mcfg) ext v = true)
-    (h128 : Proofs.Typed.has128 s = false ∨ Spec.WF.noFloat v = true)
+    (h128 : Proofs.Typed.has128 s = false ∨ Proofs.Typed.floatsPointed ext v = true)
     (hx : v.hasArrayPayload s.structVariantNames = false)
     (hd : mcfg.limitOff = true ∨ Spec.WF.depthJV v ≤ 127) :
     ∃ bufs, Model.Ser.serCompact ext (Model.Ser.ofValue v) = .ok bufs ∧
@@ -208,7 +211,10 @@ theorem c16_text_agrees_partial (mcfg : Model.Machine.Cfg) (hap : mcfg.ap = fals
     intro t
     cases hde : Model.Typed.deTyped { cfg := mcfg, src := src } (Model.Typed.Schema.size s + 1) 0 s
         (Spec.Image.render (Spec.Image.imageOfValue ext v)) 0 with
-    | ok x r p => exact absurd hde (hag x r p)
+    | ok x r p =>
+      -- returned in front of `.` / `e` / `E` (a float under a 128-bit integer target): `end()` reports trailing characters
+      obtain ⟨c, tl, rfl, hw, _⟩ := Proofs.Typed.badHead_facts (hag x r p hde)
+      simp [Proofs.Typed.skipWs_cons hw]
     | _ => simp
 
 /-- **the text leg without floats**: no hypothesis about the printer / parser pair, every schema of the fragment (128-bit
@@ -223,7 +229,7 @@ theorem c16_text_agrees_nofloat (mcfg : Model.Machine.Cfg) (hap : mcfg.ap = fals
        | .ok t => Model.Typed.deTypedTop { cfg := mcfg, src := src } s bufs.flatten = .ok t
        | .error _ => ∀ t, Model.Typed.deTypedTop { cfg := mcfg, src := src } s bufs.flatten ≠ .ok t) :=
   c16_text_agrees_partial mcfg hap src ext hext ext' s hs v hv.1 (SJ.Proofs.RoundTrip.floatsRT_of_noFloat _ ext v hv.2)
-    (.inr hv.2) hx hd
+    (.inr (Proofs.Typed.floatsPointed_of_noFloat ext v hv.2)) hx hd
 
 -- `[[1,null],[2,true]]` as `Vec<(u8, Option<bool>)>`: the text leg returns what `from_value` returns; `[256]` fails on both sides
 example : fromValue {} {} (.seq (.tuple [.int .u8, .option .bool]))
@@ -267,7 +273,7 @@ example : Proofs.Typed.agreeFrag2 (.enum_ [([0x55], .unit), ([0x56], .tuple [.in
 
 -- floats: `[1.5,2]` as `Vec<f64>` (an integer into `f64` is cast on both sides); `1.5` into `u8` and into `i128` is refused by
 -- `from_value` and by the text path — by `i128`'s caller (`end()`: trailing characters at byte 2), `scan_integer128` having
--- accepted the prefix `1`: the case outside `c16_text_agrees_partial`
+-- accepted the prefix `1` (covered by `c16_text_agrees_partial` through `Agree1w`: see the instance below)
 example : (match fromValue {} {} (.seq .f64) (.arr [.num (.float 0x3ff8000000000000), .num (.pos 2)]) with
     | .ok t => t == .seq [.f64 0x3ff8000000000000, .f64 0x4000000000000000] | _ => false) = true := by decide +kernel
 example : (match Model.Typed.deTypedTop {} (.seq .f64) [0x5b, 0x31, 0x2e, 0x35, 0x2c, 0x32, 0x5d] with
@@ -278,5 +284,65 @@ example : (match Model.Typed.deTypedTop {} (.int .u8) [0x31, 0x2e, 0x35] with | 
     (match Model.Typed.deTypedTop {} (.int .i128) [0x31, 0x2e, 0x35] with | .err .TrailingCharacters 2 => true | _ => false) = true := by
   decide +kernel
 example : Proofs.Typed.has128 (.seq (.tuple [.int .i128, .f64])) = true ∧ Proofs.Typed.has128 (.map (.int .u128) .f64) = false := by decide
+
+/-- a printer for the instances below: real `itoa`, and a "ryu" that writes every float as `1.5` -/
+def extE : Spec.Program.Ext :=
+  { itoa := Spec.Number.decimal, ryu64 := fun _ => [0x31, 0x2e, 0x35], ryu32 := fun _ => [0x31, 0x2e, 0x35] }
+theorem extE_ok : Spec.Program.ExtOK extE :=
+  ⟨fun _ => rfl, fun _ _ => ⟨⟨false, [0x31], [0x2e, 0x35], []⟩, rfl, rfl⟩, fun _ _ => ⟨⟨false, [0x31], [0x2e, 0x35], []⟩, rfl, rfl⟩⟩
+
+/-- non-vacuity of the 128-bit / float case: `[7,1.5]` as `(i128, f64)` — a float in a schema with a 128-bit target, read as
+    `from_value` reads it — and `[1.5,7]` as the same type: the float MEETS the 128-bit target, `from_value` refuses and the
+    theorem says the text path does too (`scan_integer128` returns `1`, `has_next_element` finds `.`) -/
+example : ∃ bufs, Model.Ser.serCompact extE (Model.Ser.ofValue (.arr [.num (.pos 7), .num (.float 0x3ff8000000000000)])) = .ok bufs ∧
+    Model.Typed.deTypedTop { cfg := {}, src := .slice } (.tuple [.int .i128, .f64]) bufs.flatten =
+      .ok (.seq [.int 7, .f64 0x3ff8000000000000]) := by
+  have h := c16_text_agrees_partial {} rfl .slice extE extE_ok {} (.tuple [.int .i128, .f64]) (by decide)
+    (.arr [.num (.pos 7), .num (.float 0x3ff8000000000000)]) (by decide) (by decide +kernel) (.inr (by decide)) (by decide)
+    (.inr (by decide))
+  have hv : fromValue { po := false, fr := false, ap := false } {} (.tuple [.int .i128, .f64])
+      (.arr [.num (.pos 7), .num (.float 0x3ff8000000000000)]) = .ok (.seq [.int 7, .f64 0x3ff8000000000000]) := by rfl
+  obtain ⟨bufs, h1, h2⟩ := h
+  rw [hv] at h2
+  exact ⟨bufs, h1, h2⟩
+example : ∃ bufs, Model.Ser.serCompact extE (Model.Ser.ofValue (.arr [.num (.float 0x3ff8000000000000), .num (.pos 7)])) = .ok bufs ∧
+    ∀ t, Model.Typed.deTypedTop { cfg := {}, src := .slice } (.tuple [.int .i128, .f64]) bufs.flatten ≠ .ok t := by
+  have h := c16_text_agrees_partial {} rfl .slice extE extE_ok {} (.tuple [.int .i128, .f64]) (by decide)
+    (.arr [.num (.float 0x3ff8000000000000), .num (.pos 7)]) (by decide) (by decide +kernel) (.inr (by decide)) (by decide)
+    (.inr (by decide))
+  have hv : fromValue { po := false, fr := false, ap := false } {} (.tuple [.int .i128, .f64])
+      (.arr [.num (.float 0x3ff8000000000000), .num (.pos 7)]) = .error () := by rfl
+  obtain ⟨bufs, h1, h2⟩ := h
+  rw [hv] at h2
+  exact ⟨bufs, h1, h2⟩
+-- the same text evaluated: `[1.5,7]` into `(i128, f64)` stops at byte 2 with "expected `,` or `]`"
+example : (match Model.Typed.deTypedTop {} (.tuple [.int .i128, .f64]) [0x5b, 0x31, 0x2e, 0x35, 0x2c, 0x37, 0x5d] with
+    | .err .ExpectedListCommaOrEnd 3 => true | _ => false) = true := by decide +kernel
+-- the proviso `floatsPointed` is needed: a printer that writes the float 1e20 as `100000000000000000000` (an RFC 8259 number,
+-- read back as that float) makes the text path accept into `i128` what `from_value` refuses
+example : fromValue {} {} (.int .i128) (.num (.float 0x4415af1d78b58c40)) = .error () ∧
+    (match Model.Typed.deTypedTop {} (.int .i128)
+        [0x31, 0x30, 0x30, 0x30, 0x30, 0x30, 0x30, 0x30, 0x30, 0x30, 0x30, 0x30, 0x30, 0x30, 0x30, 0x30, 0x30, 0x30, 0x30, 0x30, 0x30] with
+      | .ok t => t == .int 100000000000000000000 | _ => false) = true := ⟨rfl, by decide +kernel⟩
+
+/-! ## the statement's exclusion "zero-length tuple variants", established on the crate and in both models
+
+`enum E { Z() }` and the value `{"Z":[]}` (harness, every configuration: `c16 d E2;5a;t0;55;u o1;s5a;a0; … => ERR|ERR|OK:V0;Q0;`):
+`from_value` and `&Value` refuse it (`VariantDeserializer::tuple_variant` answers an EMPTY array with `visitor.visit_unit()`,
+which derive's tuple-variant visitor does not implement), `from_str` accepts it (`deserialize_seq` + `visit_seq` taking no
+element). The three paths disagree — exactly the case the statement names as outside the claim ("zero-length tuple variants …
+accepted from text only"), so the executable statement skips it (`c16Excluded`) and `agreeFrag2` excludes it. A zero-length
+TUPLE (`[T; 0]`, a tuple struct without fields; schema `T0;`) is inside the claim and inside the theorem: `[]` is accepted by all
+three, anything else refused by all three. -/
+example : fromValue {} {} (.enum_ [([0x5a], .tuple []), ([0x55], .unit)]) (.obj [([0x5a], .arr [])]) = .error () ∧
+    fromValueRef {} {} (.enum_ [([0x5a], .tuple []), ([0x55], .unit)]) (.obj [([0x5a], .arr [])]) = .error () ∧
+    (match Model.Typed.deTypedTop {} (.enum_ [([0x5a], .tuple []), ([0x55], .unit)]) [0x7b, 0x22, 0x5a, 0x22, 0x3a, 0x5b, 0x5d, 0x7d] with
+      | .ok t => t == .variant 0 (.seq []) | _ => false) = true ∧
+    c16Excluded (.enum_ [([0x5a], .tuple []), ([0x55], .unit)]) (.obj [([0x5a], .arr [])]) = true :=
+  ⟨rfl, rfl, by decide +kernel, by decide⟩
+example : fromValue {} {} (.tuple []) (.arr []) = .ok (.seq []) ∧ fromValueRef {} {} (.tuple []) (.arr []) = .ok (.seq []) ∧
+    (match Model.Typed.deTypedTop {} (.tuple []) [0x5b, 0x5d] with | .ok t => t == .seq [] | _ => false) = true ∧
+    Proofs.Typed.agreeFrag2 (.tuple []) = true ∧ c16Excluded (.tuple []) (.arr []) = false :=
+  ⟨rfl, rfl, by decide +kernel, by decide, by decide⟩
 
 end SJ.Props.C16
